@@ -154,7 +154,7 @@ pub fn run_case(rep: &mut Report, seed: u64, case: u64, verbose: bool) -> u64 {
         for _ in 0..rng.range(1, 3) {
             for _ in 0..rng.range(1, 2) {
                 let op = rng.range(1, 900) as u32;
-                if let Ok(bytes) = echo_wasm_abi::pack_intent_v1(op, &rng.bytes(rng.range_usize(1, 16))) {
+                if let Ok(bytes) = echo_wasm_abi::pack_intent_v1(op, &{ let n = rng.range_usize(1, 16); rng.bytes(n) }) {
                     let _ = warp_wasm::dispatch_intent_cbor(&bytes);
                 }
             }
@@ -326,19 +326,19 @@ pub fn run_case(rep: &mut Report, seed: u64, case: u64, verbose: bool) -> u64 {
 
 pub fn run(rep: &mut Report, args: &Args, parent: &Budget) {
     let _ = parent;
-    let budget = Budget::for_tier(args.tier, 6.0, 60.0).slice(1.0);
-    let secs = args.by_tier(6.0, 60.0);
-    let budget = if std::env::var("VERIF_BUDGET_S").is_ok() {
-        Budget::new(secs.min(budget.elapsed_s() + 5.0))
-    } else {
-        budget
-    };
+    // A fixed small slice; `VERIF_BUDGET_S` (used for smoke runs) scales it down.
+    let secs: f64 = std::env::var("VERIF_BUDGET_S")
+        .ok()
+        .and_then(|v| v.parse::<f64>().ok())
+        .map_or(args.by_tier(6.0, 60.0), |b| (b / 6.0).clamp(1.0, 60.0));
+    let budget = Budget::new(secs);
     let n_shards = args.jobs.max(1);
     let seed = args.seed;
-    let max_cases = args.by_tier(400u64, 20_000u64);
+    let max_cases = args.by_tier(4_000u64, 100_000u64);
     verif_core::run_shards(rep, args.jobs, n_shards, |shard, rep| {
         let mut case = shard as u64;
         while !budget.expired() && case < max_cases {
+            rep.eval();
             run_case(rep, seed, case, false);
             rep.count("wasm_cases", 1);
             case += n_shards as u64;
